@@ -54,10 +54,13 @@ Header(B) ==
           ELSE IF Len(B) > total THEN Err("trailing_bytes")
           ELSE [ok |-> TRUE, gen |-> gen, size |-> size, offb |-> offb, hasidx |-> hasidx, hascrc |-> hascrc,
                 hascache |-> hascache, cells |-> cells, roots |-> roots, tot |-> tot,
-                rootlist |-> IF gen THEN [k \in 1..roots |-> UBE(B, p1 + (k - 1) * size, size) + 1] ELSE <<1>>,
+                rootlist |-> IF gen THEN [k \in 1..roots |-> UBig(B, p1 + (k - 1) * size, size) + 1] ELSE <<1>>,
                 idxoff |-> p2, dataoff |-> p3, endoff |-> p3 + tot]
 
 \* ------------------------------------------------------------------ cells
+\* an index field that may hold more than TLC's integers do (4-byte fields of corrupted input): anything from 2^30 up is
+\* reported as 2^30, which is larger than any cell count this model accepts (so the index is dangling)
+UBig(B, off, len) == IF SmallBE(B, off, len) /\ UBE(B, off, len) < 1073741824 THEN UBE(B, off, len) ELSE 1073741824
 \* length in bytes of the cell starting at off (needs 2 readable bytes)
 CellLenAt(B, off, size) ==
     LET d1 == B[off]  d2 == B[off + 1]
@@ -91,7 +94,7 @@ RawCell(B, h, off) ==
         n |-> bs.n, y |-> bs.y,
         shash |-> IF wh = 1 THEN [j \in 1..nh |-> Sub(B, off + 2 + (j - 1) * 32, 32)] ELSE <<>>,
         sdepth |-> IF wh = 1 THEN [j \in 1..nh |-> UBE(B, off + 2 + nh * 32 + (j - 1) * 2, 2)] ELSE <<>>,
-        refs |-> [j \in 1..(IF nr <= 4 THEN nr ELSE 0) |-> UBE(B, doff + dsz + (j - 1) * h.size, h.size) + 1]]
+        refs |-> [j \in 1..(IF nr <= 4 THEN nr ELSE 0) |-> UBig(B, doff + dsz + (j - 1) * h.size, h.size) + 1]]
 
 \* an explicit sequence value: TLC keeps [k \in 1..N |-> e] as an unevaluated function and re-evaluates e at every
 \* application (and all of them at every Len); large bags need each cell decoded once
